@@ -138,7 +138,10 @@ def cmd_run(args):
         try:
             for p in props:
                 t0 = time.time()
-                rc, out = sh(["python3", os.path.join(ROOT, "verif.py"), "check", p, "--tier", tier], cwd=ROOT, timeout=3600)
+                os.makedirs("/tmp/seed-evid", exist_ok=True)
+                pr = subprocess.run(["python3", os.path.join(ROOT, "verif.py"), "check", p, "--tier", tier], cwd=ROOT,
+                                    env=dict(ENV, VERIF_DEV_EVID="/tmp/seed-evid"), stdout=subprocess.PIPE, stderr=subprocess.STDOUT, text=True, timeout=3600)
+                rc, out = pr.returncode, pr.stdout
                 line = [l for l in out.splitlines() if l.startswith("VIOLATION") or l.startswith("OK ") or "INCONCLUSIVE" in l]
                 verdict = {0: "missed", 1: "caught", 2: "inconclusive"}.get(rc, "rc%s" % rc)
                 msg = ""
